@@ -1609,6 +1609,10 @@ class SpaceUpdater(SharedSpaceOperations):
         method = parent.on_del_space
 
         self._instructions.append(
+            Instruction(self.model.refmgr.del_space_refs,
+                        (graph.to_space(node),))
+        )
+        self._instructions.append(
             Instruction(method, (name,))
         )
 
@@ -1708,6 +1712,7 @@ class SpaceUpdater(SharedSpaceOperations):
             raise
 
         self._update_manager()
+        self.model.refmgr.new_space_refs(space)
 
         return space
 
@@ -1945,6 +1950,31 @@ class ReferenceManager:
                 )
                 if spec:
                     self._manager.del_spec(spec)
+
+    def new_space_refs(self, space):
+        """Add the refs defined in new ``space`` by its ``refs`` parameter"""
+
+        for ref in space.own_refs.values():
+            if ref.is_defined() and not isinstance(ref.interface, Interface):
+                self._valid_to_refs.setdefault(
+                    id(ref.interface), []).append(ref)
+
+    def del_space_refs(self, space):
+        """Remove the refs defined in ``space`` being deleted"""
+
+        for ref in space.own_refs.values():
+            valid = id(ref.interface)
+            refs = self._valid_to_refs.get(valid)
+            if refs and ref in refs:    # not in case ref is derived
+                refs.remove(ref)
+                if not refs:
+                    del self._valid_to_refs[valid]
+                    spec = self._manager.get_spec_from_value(
+                        io_group=self._model.interface,
+                        value=ref.interface
+                    )
+                    if spec:
+                        self._manager.del_spec(spec)
 
     def change_ref(self, impl, name, value, refmode=None):
 
